@@ -374,6 +374,7 @@ type splitter struct {
 	rare     bool // conflicting roles are rare (so that single reasons decide the verdict)
 	focus    model.FKind // list kind whose overlapping roles are preferred (when hasFocus)
 	hasFocus bool
+	keep     func(*model.FieldInfo) bool // containers on the way to the focus kind always go to both sides
 	o        model.GenOpts
 }
 
@@ -521,7 +522,7 @@ func (s *splitter) node(m *model.Node, keyLeaves map[string]bool, depth int) (*m
 				continue
 			}
 			wOne := 12
-			if depth == 0 {
+			if depth == 0 || (s.keep != nil && !s.disjoint && s.keep(f)) {
 				wOne = 0
 			}
 			switch s.pick("cont", 76, wOne, wOne) {
